@@ -338,6 +338,11 @@ func (r *Request) multipartReader() (*multipart.Reader, error) {
 }
 
 // Return value if nonempty, def otherwise.
+// isSpaceOrCtl reports whether r may not appear in a request target or host.
+func isSpaceOrCtl(r rune) bool {
+	return r <= ' ' || r == 0x7f
+}
+
 func valueOrDefault(value, def string) string {
 	if value != "" {
 		return value
@@ -400,7 +405,17 @@ func (req *Request) write(w io.Writer, usingProxy bool, extraHeaders Header) err
 			}
 		}
 	}
-	// TODO(bradfitz): escape at least newlines in ruri?
+	// Never let bytes taken from the client (e.g. HTTP/2 or SPDY pseudo headers)
+	// change the structure of the request line.
+	if method := valueOrDefault(req.Method, "GET"); strings.IndexFunc(method, isNotToken) != -1 {
+		return fmt.Errorf("http: invalid method %q", method)
+	}
+	if strings.IndexFunc(ruri, isSpaceOrCtl) != -1 {
+		return fmt.Errorf("http: invalid request target %q", ruri)
+	}
+	if strings.IndexFunc(host, isSpaceOrCtl) != -1 {
+		return fmt.Errorf("http: invalid host %q", host)
+	}
 
 	// Wrap the writer in a bufio Writer if it's not already buffered.
 	// Don't always call NewWriter, as that forces a bytes.Buffer
